@@ -263,6 +263,7 @@ def grid_faces(g, pos, touch=False):
 
 # ----------------------------------------------------------------------------- attrs netCDF cannot hold
 _NC = None
+_NC_PID = None
 
 
 def _attr_storable(value):
@@ -275,7 +276,9 @@ def _attr_storable(value):
     try:
         import netCDF4
 
-        if _NC is None:
+        global _NC_PID
+        if _NC is None or _NC_PID != os.getpid():  # never share a netCDF/HDF5 handle across a fork
+            _NC_PID = os.getpid()
             _NC = netCDF4.Dataset("c07_attr_probe_%d" % os.getpid(), "w", diskless=True, persist=False)
             _NC.createVariable("v", "i4", ())
         _NC["v"].setncattr("a", value)
@@ -690,3 +693,61 @@ def replay_behaviour(beh):
     finally:
         restore_templates()
     return out
+
+
+# ----------------------------------------------------------------------------- process pool that cannot hang
+def _run_items(args):
+    func, idx_items = args
+    return [(i, func(x)) for i, x in idx_items]
+
+
+def robust_map(func, items, nproc, chunk=6, deadline_s=1500):
+    """Ordered map over forked workers.  A worker that dies (a crash inside the library on a changed
+    tree) or a deadlock never hangs or aborts the check: unfinished items are retried one per
+    process; an item whose process dies twice yields {"crashed": True, ...}."""
+    import multiprocessing as mp
+    import time
+    from concurrent.futures import ProcessPoolExecutor, wait, FIRST_EXCEPTION
+
+    items = list(items)
+    results = [None] * len(items)
+    ctx = mp.get_context("fork")
+
+    def attempt(indices, per, workers, budget):
+        chunks = [indices[k : k + per] for k in range(0, len(indices), per)]
+        ex = ProcessPoolExecutor(max_workers=workers, mp_context=ctx)
+        futs = {ex.submit(_run_items, (func, [(i, items[i]) for i in c])): c for c in chunks}
+        t0 = time.time()
+        try:
+            pending = set(futs)
+            while pending and time.time() - t0 < budget:
+                done, pending = wait(pending, timeout=5, return_when=FIRST_EXCEPTION)
+                for f in done:
+                    try:
+                        for i, r in f.result():
+                            results[i] = r
+                    except Exception:  # noqa  BrokenProcessPool: every other pending future fails too
+                        pass
+                if any(f.done() and f.exception() is not None for f in futs):
+                    break
+        finally:
+            for p in list(getattr(ex, "_processes", {}).values()):
+                try:
+                    p.kill()
+                except Exception:  # noqa
+                    pass
+            ex.shutdown(wait=False, cancel_futures=True)
+        return [i for i in indices if results[i] is None]
+
+    todo = attempt(list(range(len(items))), chunk, nproc, deadline_s)
+    rounds = 0
+    while todo and rounds < 3:
+        rounds += 1
+        todo = attempt(todo, 1, nproc, max(120, deadline_s // 4))
+    for i in todo:  # suspects: alone, twice
+        left = attempt([i], 1, 1, 300)
+        if left:
+            left = attempt([i], 1, 1, 300)
+        if left:
+            results[i] = {"t": items[i].get("t"), "lines": [], "errors": [], "mesh": {}, "skipped": "the interpreter died or hung while replaying this behaviour (twice)", "crashed": True}
+    return results
